@@ -452,14 +452,33 @@ def _rm(d):
 
 
 def kill_point(run, ref, delay, workdir):
-    """SIGKILL the recording child after `delay` seconds."""
+    """SIGKILL the recording child at a random wall-clock time: delay = (u, extra); the signal is sent `extra` seconds
+    after the child has begun its (u * N)-th statement (polling its live log), so that the kills spread over the whole
+    recording whatever the machine load; the signal arrives asynchronously, possibly in the middle of a statement."""
     pid = spawn(run, workdir, None, log_live=True)
-    time.sleep(delay)
-    try:
-        os.kill(pid, signal.SIGKILL)
-    except ProcessLookupError:
-        pass
-    _, st = os.waitpid(pid, 0)
+    target = int(delay[0] * len(ref['events']))
+    live = os.path.join(workdir, 'live.log')
+    t_end = time.time() + 600
+    done = 0
+    while time.time() < t_end:
+        try:
+            if target <= 0 or os.path.getsize(live) >= 1 and sum(1 for _ in open(live)) >= target:
+                break
+        except OSError:
+            pass
+        done, st = os.waitpid(pid, os.WNOHANG)
+        if done:                      # the run finished first (target beyond its last statement)
+            break
+        time.sleep(0.0005)
+    else:
+        done = 0
+    if not done:
+        time.sleep(delay[1])
+        try:
+            os.kill(pid, signal.SIGKILL)
+        except ProcessLookupError:
+            pass
+        _, st = os.waitpid(pid, 0)
     killed = os.WIFSIGNALED(st)
     if not killed and os.WEXITSTATUS(st) != 0:
         raise MachineryError('kill child ended with %r' % (st,))
@@ -721,8 +740,8 @@ def run(ctx):
         kjobs = []
         nk = 0
         for ref in usable:
-            lo, hi = 0.6 * ref['t_first'], 1.15 * max(ref['t_last'], ref['t_first'] + 0.01)
-            delays = [(nk + i, rng.uniform(lo, hi)) for i in range(24)]
+            delays = [(nk + i, (rng.uniform(0, 1.02), rng.choice([0, 0, rng.uniform(0, .004), rng.uniform(0, .05)])))
+                      for i in range(24)]
             nk += 24
             kjobs += [(ref['run']['name'], c, base) for c in split(delays, 6) if c]
         for name, out in pmap(_kill_worker, kjobs, nproc=max(2, PAR // 2)):
@@ -738,7 +757,7 @@ def run(ctx):
                     if fr['bucket'].startswith('post') and any(o['mark'] >= 1 for o in fr['obs']):
                         ctx.note_nontrivial('%s/%s/kill@%d' % (name, lab, res['n']))
                     if fr['clause']:
-                        ctx.violation({'run': ref['run'], 'sigkill_after_s': res['delay'], 'statements_begun': res['n'], 'file': lab},
+                        ctx.violation({'run': ref['run'], 'sigkill_at_fraction_plus_s': res['delay'], 'statements_begun': res['n'], 'file': lab},
                                       {'spec_observations_admissible': fr['obs'], 'prefix_of': ref['read'][lab]['list']},
                                       fr['detail'], fr['clause'] + ' (SIGKILL at a random time)',
                                       info={'kind': 'kill', 'clause': fr['clause']})
